@@ -243,9 +243,9 @@ def cases_empty():
 def subchecks(tier):
     big = tier == "thorough"
     return [
-        Sub("listing", body_listing, strategy=strat_listing(tier, "api"), n=40_000 if big else 900, shards=16 if big else 3),
+        Sub("listing", body_listing, strategy=strat_listing(tier, "api"), n=40_000 if big else 2000, shards=16 if big else 4),
         Sub("listing-direct", lambda rep, case: body_listing(rep, case, "listing-direct"), strategy=strat_listing(tier, "direct"),
             n=200_000 if big else 1500, shards=16 if big else 2),
-        Sub("roundtrip", body_roundtrip, strategy=strat_roundtrip(tier), n=60_000 if big else 700, shards=16 if big else 3),
+        Sub("roundtrip", body_roundtrip, strategy=strat_roundtrip(tier), n=60_000 if big else 1600, shards=16 if big else 4),
         Sub("empty-reply", body_empty, cases=cases_empty, shards=1, exhaustive=True),
     ]
